@@ -1187,17 +1187,25 @@ func threadOnly(f *ssa.Function) {
 	for dupResultReturns(f) {
 		did = true
 	}
-	for iter := 0; iter < 100; iter++ {
-		progress := false
-		for _, x := range f.Blocks {
-			if threadBlock(f, x) {
-				progress, did = true, true
+	for round := 0; round < 4; round++ {
+		for iter := 0; iter < 100; iter++ {
+			progress := false
+			for _, x := range f.Blocks {
+				if threadBlock(f, x) {
+					progress, did = true, true
+					break
+				}
+			}
+			if !progress {
 				break
 			}
 		}
-		if !progress {
+		// threading leaves blocks with a single way in, whose tests may now
+		// be decided by the test on that way
+		if !foldDecided(f, decidedCond) {
 			break
 		}
+		did = true
 	}
 	if did {
 		simplifyCFG(f)
@@ -1233,6 +1241,12 @@ func canonCompare(f *ssa.Function) {
 				bo.Op = token.GEQ
 			case token.GEQ:
 				bo.Op = token.LEQ
+			case token.ADD, token.MUL, token.AND, token.OR, token.XOR:
+				// commutative on integers (`1 + n`): constant to the right
+				// (string concatenation is not commutative)
+				if bt, isB := bo.Type().Underlying().(*types.Basic); !isB || bt.Info()&types.IsInteger == 0 {
+					continue
+				}
 			default:
 				continue
 			}
